@@ -7,7 +7,7 @@
 (***************************************************************************)
 EXTENDS CsvIO
 
-CONSTANTS N
+CONSTANTS N, NTEXT
 
 VARIABLE W
 
@@ -16,15 +16,17 @@ Shapes == {p \in [T -> 0..(N - 1)] : \A i \in T : p[i] < i /\ (p[i] # 0 => \A j 
    \* parent vectors of forests numbered depth-first
 KidsOf(p, t) == SeqOfSet({c \in T : p[c] = t})
 IdPools == {<<0, -1, 5, 2>>, <<3, 0, 7, -4>>}
-TextCells == {NoneC, [k |-> "text", v |-> 0], [k |-> "text", v |-> 1], [k |-> "text", v |-> 2]}
+TextCells == {NoneC} \cup {[k |-> "text", v |-> i] : i \in 0..(NTEXT - 2)}
 DateCells == {NoneC, [k |-> "date", v |-> 3]}
 NumCells  == {NoneC, [k |-> "int", v |-> 0], [k |-> "num", n |-> 1, d |-> 2]}
 Customs   == {<<>>, <<[col |-> "a", v |-> [k |-> "text", v |-> 1]]>>,
               <<[col |-> "b", v |-> [k |-> "text", v |-> 2]], [col |-> "a", v |-> NoneC]>>}
-PreSets(p) == {q \in [T -> SUBSET T] : \A t \in T : t \notin q[t] /\ Cardinality(q[t]) <= 1}
+PreSets(p) == {q \in [T -> SUBSET T] : /\ \A u \in T : u \notin q[u]
+                                          /\ Cardinality(UNION {{<<z, x>> : x \in q[z]} : z \in T}) <= 2}
+TwoCustoms == {cu \in [T -> Customs] : \A u \in T : u > 2 => cu[u] = <<>>}
 
 Init == \E p \in Shapes : \E q \in PreSets(p) : \E ids \in IdPools :
-        \E nm \in [T -> TextCells] : \E cu \in [T -> Customs] :
+        \E nm \in [T -> TextCells] : \E cu \in TwoCustoms :
         \E dt \in DateCells : \E nu \in NumCells :
           W = [ids |-> [t \in T |-> ids[t]], par |-> p, kids |-> [t \in T |-> KidsOf(p, t)],
                roots |-> SeqOfSet({c \in T : p[c] = 0}),
